@@ -291,6 +291,11 @@ func (p *Prog) verifyFunction(fn *ssa.Function, spec *FuncSpec) *FuncResult {
 	env.old = fr.entrySt
 	// locks held on entry
 	for _, h := range spec.LockHeld {
+		if h == "*" {
+			// the caller holds the lock that protects what this function touches
+			vc.lockChecksOff = true
+			continue
+		}
 		vc.enterHeld(fr, h, env)
 	}
 	for _, l := range spec.Lets {
@@ -330,6 +335,9 @@ func (p *Prog) verifyFunction(fn *ssa.Function, spec *FuncSpec) *FuncResult {
 			extra["result"] = results[0]
 		}
 		e := vc.specEnv(fr, extra)
+		e.old = fr.entrySt
+		vc.applyGhostSets(spec, e, pos)
+		e = vc.specEnv(fr, extra)
 		e.old = fr.entrySt
 		for i, en := range spec.Ensures {
 			if t, ok := vc.evalBool(en, e); ok {
@@ -412,4 +420,38 @@ func (p *Prog) verifyLemma(l *LemmaSpec) *FuncResult {
 	}
 	res.Errors = vc.errs
 	return res
+}
+
+// applyGhostSets executes the ghost assignments of a contract at a return.
+func (vc *VC) applyGhostSets(spec *FuncSpec, env *Env, pos token.Pos) {
+	type upd struct {
+		loc *Loc
+		val string
+	}
+	var ups []upd
+	for _, gs := range spec.GhostSets {
+		func() {
+			defer func() {
+				if r := recover(); r != nil {
+					if ee, ok := r.(evalError); ok {
+						vc.errorf("%s:%d: ghostset %s: %s", gs.File, gs.Line, gs.Src, ee.msg)
+						return
+					}
+					panic(r)
+				}
+			}()
+			env.where = "ghostset " + gs.Src
+			t := vc.eval(gs.Target, env)
+			v := vc.eval(gs.Value, env)
+			if t.Loc == nil || !strings.HasPrefix(t.Loc.Heap, "G.") {
+				vc.errorf("%s:%d: ghostset target must be ghost state", gs.File, gs.Line)
+				return
+			}
+			ups = append(ups, upd{t.Loc, v.T})
+		}()
+	}
+	// simultaneous assignment: all right-hand sides were evaluated first
+	for _, u := range ups {
+		vc.store(u.loc, u.val, pos)
+	}
 }
